@@ -140,6 +140,27 @@ def _collect(v, out, depth):
             _collect(x, out, depth + 1)
 
 
+def tree_size(root, cap=10 ** 9):
+    """number of nodes of the expression seen as a tree (what amoco's recursive
+    walkers pay), computed on the DAG with a memo; saturates at cap"""
+    memo = {}
+    stack = [(root, False)]
+    while stack:
+        n, done = stack.pop()
+        if id(n) in memo and not done:
+            continue
+        ch = children(n)
+        if done:
+            memo[id(n)] = min(cap, 1 + sum(memo.get(id(c), 1) for c in ch))
+            continue
+        memo[id(n)] = 1  # provisional (cycles do not occur in amoco expressions)
+        stack.append((n, True))
+        for c in ch:
+            if id(c) not in memo:
+                stack.append((c, False))
+    return memo[id(root)]
+
+
 def walk(root, limit=5000):
     seen = set()
     stack = [root]
